@@ -127,9 +127,9 @@ def make_file(rng: random.Random, cfg: dict | None = None) -> dict:
                 params.append(v)
     if "FOCUS" in text_all:
         tags.add("FOCUS")
-    if rng.random() < 0.7:
+    if rng.random() < 0.7 or cfg.get("force_collision"):
         params.append(cat["params"]["D0_radius"])
-        if cfg.get("collisions") and rng.random() < 0.6:
+        if cfg.get("collisions") and (rng.random() < 0.6 or cfg.get("force_collision")):
             # two legal parameter names that collapse to one programmatic name (C20 pools only: what the generator makes of
             # such a pair is C19's business, that it makes the same of it in every process is C20's)
             params.append("D0::radius                                        2              0.0041         0")
@@ -196,6 +196,8 @@ def make_pool(seed: int, n: int, cfg: dict | None = None) -> list:
         c = dict(cfg)
         if cfg.get("with_cartesian") and len(pool) == n - 1:
             c["cartesian"] = True
+        if cfg.get("collisions") and len(pool) == 0:
+            c["force_collision"] = True
         f = make_file(rng, c)
         key = tuple(f["resonances"])
         if f["name"] in seen or (key in seen and tries < 100):
@@ -347,7 +349,7 @@ def do_op(op: dict, files: dict) -> dict:
         # what the following calls of the history have to cope with
         from simkit.inject import Injector, SimFault
 
-        inj = Injector(int(op["k"]))
+        inj = Injector(int(op["k"]), op.get("target"))
         try:
             inj.run(do_op, op["inner"], files)
         except SimFault:
@@ -694,6 +696,10 @@ def c19_candidates(case: dict):
 
 # ------------------------------------------------------------------ C20: histories
 FAULT_OPS = ("interrupt", "arm_table_fault")
+KILL_TARGETS = ["read_ampgen", "from_matched_line", "expand_lines", "particle_from_string_name", "particle_list_from_string_name",
+                "_from_group_dict_list", "decay", "cplx_decay_line", "variable", "constant", "make_intro", "make_pars", "strip_pararray",
+                "to_goofit", "make_spinfactor", "make_linefactor", "make_lineshape", "make_amplitude", "list_structure", "spindetails",
+                "ampgen2goofit", "ampgen2goofitpy"]
 
 
 def op_kind(op: dict) -> str:
@@ -710,7 +716,7 @@ def op_key(op: dict) -> str:
     if op["op"] == "arm_table_fault":
         return "arm_table_fault"
     if op["op"] == "interrupt":
-        return f"interrupt[{op['k']}]:" + op_key(op["inner"])
+        return f"interrupt[{op.get('target', '')}{op['k']}]:" + op_key(op["inner"])
     return op_kind(op) + "@" + op["file"] + ("<-" + op["content"] if op.get("content") else "")
 
 
@@ -758,6 +764,10 @@ def gen_history(rng: random.Random, pool: list, cfg: dict | None = None) -> dict
             # uniform over that range, half log-uniform so that the early phases (option handling, transformer) are hit too
             k = rng.randint(1, 16000) if rng.random() < 0.5 else int(10 ** rng.uniform(0.0, 4.3))
             ops[i] = {"op": "interrupt", "inner": inner, "k": k}
+            if rng.random() < 0.5:
+                # placement by phase: the k-th line event inside one named function of the reader / generator
+                ops[i]["target"] = rng.choice(KILL_TARGETS)
+                ops[i]["k"] = int(10 ** rng.uniform(0.0, 1.6))
     # ... and sometimes the one-time load of the special-particle table meets a transient I/O error
     if rng.random() < cfg.get("p_table_fault", 0.15):
         ops.insert(rng.randrange(0, len(ops) - 1), {"op": "arm_table_fault"})
